@@ -538,6 +538,19 @@ class C02(Property):
             else:
                 ctx.fail("cyl:position" + tag, f"droplet V={vol[i]:.6g} z={pos[i][2]:.6g}; components with that volume at z={[(o[1], o[2]) for j, o in enumerate(orc) if j in volm]}")
             return
+        # returned droplets never overlap one another as equal-volume spheres.  Two readings of the distance are told apart: the plain
+        # distance along the axis inside the box (signature cyl:overlap), and - on periodic cylinders - pairs that only overlap through
+        # the periodic boundary (cyl:overlap+through-boundary)
+        rad = [float(d.radius) for d in res]
+        for i in range(len(pos)):
+            for j in range(i + 1, len(pos)):
+                if orc[ml[i]][3] or orc[ml[j]][3]:
+                    continue  # the position of a winding object is not specified
+                d_plain = abs(pos[i][2] - pos[j][2])
+                if d_plain < rad[i] + rad[j] - tol:
+                    ctx.fail("cyl:overlap", f"returned droplets at z={pos[i][2]:.6g} (r={rad[i]:.6g}) and z={pos[j][2]:.6g} (r={rad[j]:.6g}) overlap as spheres")
+                elif per and dz(pos[i][2], pos[j][2]) < rad[i] + rad[j] - tol:
+                    ctx.fail("cyl:overlap+through-boundary", f"returned droplets at z={pos[i][2]:.6g} (r={rad[i]:.6g}) and z={pos[j][2]:.6g} (r={rad[j]:.6g}) overlap as spheres through the periodic boundary")
         for i, (V, zm, zw, w, r) in enumerate(orc):
             if i in used:
                 continue
